@@ -387,3 +387,44 @@ def cap_protocol(prog):
                   'unknown index' % (r.states, r.checked_idx, len(unk))))
     return RuleResult('CAP-PROTOCOL', obs, 1, {'states': r.states, 'subscripts_checked': r.checked_idx,
                                               'unknown_index_sites': sorted(unk)})
+
+
+def tick_first(prog):
+    """TICK-FIRST: in tokens_get() a character constant is turned into its number before any rewrite that looks at the token
+    text alone.  The `$` substitution (`token` is exactly "$" -> current address) tests only the text: it must be dominated
+    by the conversion of TOKEN_TICKED tokens, otherwise the character constant '$' is replaced by the location counter."""
+    from nk.cfg import dominators
+    fn = prog.fn('tokens_get')
+    dom = dominators(fn)
+    tick = []
+    dollar = []
+    for b, bb in fn.blocks.items():
+        cn = fn.nodes.get(bb.get('cond')) if 'cond' in bb else None
+        if cn is None:
+            continue
+        own = strip(cn)
+        while own['k'] == 'BinaryOperator' and own.get('op') in ('&&', '||'):
+            own = strip(kids(own)[0]) if any(x['k'] == 'DeclRefExpr' and x.get('n') == 'TOKEN_TICKED' for x in walk(kids(own)[0])) else strip(kids(own)[1])
+        if any(x['k'] == 'DeclRefExpr' and x.get('n') == 'TOKEN_TICKED' for x in walk(cn)) and \
+                any(x['k'] == 'DeclRefExpr' and x.get('n') == 'token_type' for x in walk(cn)):
+            tick.append(b)
+        for x in walk(cn):
+            if x['k'] == 'BinaryOperator' and x.get('op') == '==' and const(kids(x)[1]) == ord('$'):
+                l = strip(kids(x)[0], casts=True)
+                if l['k'] == 'ArraySubscriptExpr' and show(kids(l)[0]).endswith('token') and const(kids(l)[1]) == 0:
+                    dollar.append((b, cn))
+    if not tick or not dollar:
+        raise AnalysisBroken('TICK-FIRST: ticked-constant conversion or `$` test not found in tokens_get')
+    obs = []
+    # the conversion block: the successor of a TOKEN_TICKED test that rewrites the token (contains snprintf)
+    seen_l = set()
+    for b, cn in dollar:
+        if cn['l'] in seen_l:
+            continue
+        seen_l.add(cn['l'])
+        ok = any(t in dom[b] for t in tick)
+        obs.append(Ob('TICK-FIRST', fn.file, cn['l'], fn.q, 'dollar-after-ticked', DISCHARGED if ok else VIOLATED,
+                      '' if ok else 'the `$` -> location counter substitution (line %d) looks only at the token text and is not preceded by the '
+                      "conversion of character constants: the constant '$' evaluates to the current address instead of 36" % cn['l'],
+                      'the TOKEN_TICKED conversion dominates the `$` test', False))
+    return RuleResult('TICK-FIRST', obs, 1, {})
